@@ -29,7 +29,7 @@ def run(chk, tier):
     chk.explanation = __doc__
     run_sub(chk, 'c07', 'C07.', {'R3'})
     run_sub(chk, 'c19', 'C19.', {'R1'})
-    run_sub(chk, 'c05', 'C05.', {'R1', 'R2', 'R3'})
+    run_sub(chk, 'c05', 'C05.', {'R1', 'R2', 'R3', 'R8'})
     run_sub(chk, 'c08', 'C08.', {'R3'})
     run_sub(chk, 'c03', 'C03.', {'R2', 'R4', 'R5v', 'R5'})
     run_sub(chk, 'c09', 'C09.', {'R4'})
